@@ -102,3 +102,62 @@ Proof.
   rewrite utc_not_requested in H by exact Hp. cbn [bind] in H.
   inversion H. destruct c; reflexivity.
 Qed.
+
+(* ================================================================== UNSAFE_TO_BREAK on a successful match (C03)
+   A contextual rule that matches info[idx..en) flags, before any nested lookup runs, exactly the glyphs of that
+   range whose cluster is not the range's minimum (levels 0 and 1, clusters non-decreasing in processing order,
+   which is what C02's invariant provides): cutting inside the range is then reported unsafe at every cluster
+   start except the first one. *)
+From RB Require Import Proofs.BufferMonoP Proofs.BufferFlagsP.
+
+Lemma slice_0 : forall {A} (l : list A) e, slice l 0 e = firstn e l.
+Proof. intros. unfold slice. rewrite Nat.sub_0_r. reflexivity. Qed.
+
+Lemma utb_flags_match_range : forall b en first,
+  out_mode b = true -> level b <> 2%N -> nd (cls (rest b)) ->
+  (dead b + 2 <= en)%nat -> (en <= blen b)%nat ->
+  nth_error (rest b) 0 = Some first -> (cluster first <= U32_MAX)%N ->
+  exists b', utb b (dead b) en = Ok b'
+    /\ rest b' = map (flag_ne (cluster first) BREAK_CONCAT) (firstn (en - dead b) (rest b)) ++ skipn (en - dead b) (rest b)
+    /\ pre b' = pre b /\ dead b' = dead b /\ out_mode b' = true.
+Proof.
+  intros b en first Hm Hl Hnd Hlo Hhi Hf Hc.
+  unfold utb, set_glyph_flags'. cbn [andb negb].
+  replace (Nat.min en (blen b)) with en by lia.
+  destruct (en <? dead b)%nat eqn:E1; [apply Nat.ltb_lt in E1; lia|].
+  destruct (en - dead b <? 2)%nat eqn:E2; [apply Nat.ltb_lt in E2; lia|].
+  replace (out_mode (with_scratch b (N.lor (scratch b) SCRATCH_HAS_GLYPH_FLAGS))) with true by (symmetry; exact Hm).
+  cbn [negb orb].
+  replace (dead (with_scratch b (N.lor (scratch b) SCRATCH_HAS_GLYPH_FLAGS))) with (dead b) by reflexivity.
+  replace (rest (with_scratch b (N.lor (scratch b) SCRATCH_HAS_GLYPH_FLAGS))) with (rest b) by reflexivity.
+  replace (level (with_scratch b (N.lor (scratch b) SCRATCH_HAS_GLYPH_FLAGS))) with (level b) by reflexivity.
+  replace (pre (with_scratch b (N.lor (scratch b) SCRATCH_HAS_GLYPH_FLAGS))) with (pre b) by reflexivity.
+  destruct (dead b <? dead b)%nat eqn:E3; [apply Nat.ltb_lt in E3; lia|].
+  rewrite Nat.sub_diag.
+  assert (Hlen : (en - dead b <= length (rest b))%nat) by (unfold blen in Hhi; lia).
+  rewrite (find_min_cluster_nd (level b) (rest b) 0 (en - dead b) U32_MAX first Hnd) by (try lia; assumption).
+  cbn [bind].
+  replace (N.min U32_MAX (cluster first)) with (cluster first) by (symmetry; apply N.min_r; exact Hc).
+  destruct (infos_set_glyph_flags_nd (level b) (rest b) 0 (en - dead b) BREAK_CONCAT first Hl Hnd) as [ap Hap]; try lia; try assumption.
+  rewrite Hap. cbn [bind fst snd firstn app]. rewrite slice_0.
+  eexists. split; [reflexivity|].
+  unfold add_scratch. destruct ap; cbn; repeat split; auto.
+Qed.
+
+(* the plain context rule: the buffer the nested lookups start from *)
+Theorem context_match_flags_range : forall f e props rec cof preds recs c ps en t first,
+  out_mode (buf c) = true -> level (buf c) <> 2%N -> nd (cls (rest (buf c))) ->
+  (dead (buf c) + 2 <= en)%nat -> (en <= blen (buf c))%nat ->
+  nth_error (rest (buf c)) 0 = Some first -> (cluster first <= U32_MAX)%N ->
+  match_input f e props (buf c) preds = Ok (MIok ps en t) ->
+  exists b', rest b' = map (flag_ne (cluster first) BREAK_CONCAT) (firstn (en - dead (buf c)) (rest (buf c)))
+                       ++ skipn (en - dead (buf c)) (rest (buf c))
+             /\ pre b' = pre (buf c)
+             /\ apply_context f e props rec cof preds recs c
+                = (do c' <- apply_lookup rec (with_buf c b') ps en recs; Ok (true, c')).
+Proof.
+  intros f e props rec cof preds recs c ps en t first Hm Hl Hnd Hlo Hhi Hf Hc Hmi.
+  destruct (utb_flags_match_range (buf c) en first Hm Hl Hnd Hlo Hhi Hf Hc) as [b' [Hu [Hr [Hp _]]]].
+  exists b'. split; [exact Hr|]. split; [exact Hp|].
+  unfold apply_context. rewrite Hmi. cbn [bind]. rewrite Hu. cbn [bind]. reflexivity.
+Qed.
